@@ -25,6 +25,9 @@ def run(ctx):
         tp.endianness(rep, 'R01.i', fam)
     tp.compact_typestate(rep, 'R01.c', prog, cg)
     tp.long_form_id_becomes_context(rep, 'R01.c', prog, cg)
+    tp.compact_bool_element(rep, 'R01.b', prog, cg)
+    import c03
+    c03.ttype_byte_conversion(rep, 'R01.t', prog)
     # the unchecked writer on a linked buffer: pending bytes are committed before a payload is linked in (zero-copy on)
     import unsafe_codec
     unsafe_codec.zero_copy_sites(rep, 'R01.z', prog, cg)
